@@ -2493,6 +2493,47 @@ fn program(input: Span) -> IResult<Span, Program> {
     )(input)
 }
 
+/// Verification hooks (feature `verif`): the private type parsers on a text of their own, so that
+/// what they accept, where they stop, and where and with which nom code they fail can be compared
+/// with the Lean model of the type grammar. Read-only; nothing else uses them.
+#[cfg(feature = "verif")]
+pub mod verif {
+    use super::*;
+
+    /// `Ok((type, bytes consumed))`, or `Err((byte offset of the nom error, nom error code,
+    /// is_failure))`.
+    pub type TypeParse = Result<(Type, usize), (usize, String, bool)>;
+
+    fn run(parser: fn(Span) -> IResult<Span, Type>, text: &str) -> TypeParse {
+        match parser(Span::new(text)) {
+            Ok((rest, parsed)) => Ok((parsed, rest.location_offset())),
+            Err(nom::Err::Error(e)) => Err((e.input.location_offset(), format!("{:?}", e.code), false)),
+            Err(nom::Err::Failure(e)) => Err((e.input.location_offset(), format!("{:?}", e.code), true)),
+            Err(nom::Err::Incomplete(_)) => Err((text.len(), "Incomplete".to_string(), true)),
+        }
+    }
+
+    /// `type_definition` (the right-hand side of an alias, a field type, a type argument).
+    pub fn type_definition(text: &str) -> TypeParse {
+        run(super::type_definition, text)
+    }
+
+    /// `base_type` (an intersection member, a process receive/return type).
+    pub fn base_type(text: &str) -> TypeParse {
+        run(super::base_type, text)
+    }
+
+    /// `function_input_type` (= `function_output_type`; also `#type` of a function signature).
+    pub fn function_input_type(text: &str) -> TypeParse {
+        run(super::function_input_type, text)
+    }
+
+    /// `inline_type_expression` (a type in pattern position: `=T`, `(T)x`).
+    pub fn inline_type_expression(text: &str) -> TypeParse {
+        run(super::inline_type_expression, text)
+    }
+}
+
 #[cfg(test)]
 mod tests {
     use super::*;
